@@ -251,7 +251,8 @@ structure Collected where
   ex : List Path
   nextId : Nat
 
-/-- The `for field in attrs_fields(outputs)` loop: ONE `clashes_to_avoid` set is handed from field to field. -/
+/-- The `for field in attrs_fields(outputs)` loop: ONE `clashes_to_avoid` set is handed from field to field.
+    A field is its name and its VALUE; its declared type is not an input of the loop. -/
 def collectLoop (P : Prim) (env : Env) : List (Str × Val) → List Path → List Path → Nat → Except Err Collected
   | [], S, ex, n => .ok ⟨[], [], S, ex, n⟩
   | (name, v) :: fs, S, ex, n =>
@@ -261,6 +262,26 @@ def collectLoop (P : Prim) (env : Env) : List (Str × Val) → List Path → Lis
       match collectLoop P env fs st.clashes st.ex st.nextId with
       | .error e => .error e
       | .ok r => .ok ⟨(name, v') :: r.fields, st.memo :: r.memos, r.clashes, r.ex, r.nextId⟩
+
+/-- DOCUMENTATION VARIANT, not the code: the same loop with a per-field `skip` predicate (for instance "the field's
+    DECLARED type does not spell out a FileSet").  The real loop has no such test — `copyfile_workflow` looks at the
+    VALUE of every field whatever its declared type — which is why `collectLoop`/`copyfileWorkflow` take no type argument.
+    `Props/C33.lean` shows what a skip costs (`C33_witness_skipped_field`). -/
+def collectLoopSkip (P : Prim) (env : Env) (skip : Str × Val → Bool) :
+    List (Str × Val) → List Path → List Path → Nat → Except Err Collected
+  | [], S, ex, n => .ok ⟨[], [], S, ex, n⟩
+  | (name, v) :: fs, S, ex, n =>
+    if skip (name, v) then
+      match collectLoopSkip P env skip fs S ex n with
+      | .error e => .error e
+      | .ok r => .ok ⟨(name, v) :: r.fields, [] :: r.memos, r.clashes, r.ex, r.nextId⟩
+    else
+      match copyNested P env (some S) ex n v with
+      | .error e => .error e
+      | .ok (v', st) =>
+        match collectLoopSkip P env skip fs st.clashes st.ex st.nextId with
+        | .error e => .error e
+        | .ok r => .ok ⟨(name, v') :: r.fields, st.memo :: r.memos, r.clashes, r.ex, r.nextId⟩
 
 def copyfileWorkflow (P : Prim) (get : Table → Str → Mount.Entry) (tbl : Table) (wfDir : Path)
     (fields : List (Str × Val)) (ex : List Path) (nextId : Nat) : Except Err Collected :=
